@@ -294,18 +294,25 @@ def rule_codes(facts, rep):
     # to_ansi_color: identity on the hue index
     t = facts.body("anstream", W + "to_ansi_color")
     rep.fn(t["path"])
-    m = hir.simp(t["hir"])
-    while m.get("k") == "block":
-        m = hir.simp(hir.stmts_of(m)[0])
+    # table by abstract evaluation over 0..=40: a match or a constant array with `.get(i)` are the same table
+    import abseval
     got = {}
-    if m.get("k") == "match":
-        for a in m["arms"]:
-            ints = hir.pat_ints(a["pat"])
-            v = hir.simp(a["body"])
-            if ints is not None and v.get("k") == "call" and v.get("ctor", "").endswith("Option::Some"):
-                for i in ints:
-                    got[i] = hir.last_seg(hir.def_path(v["args"][0]))
-            rep.count()
+    for i in range(41):
+        ev = abseval.Evaluator(facts, "anstream", {})
+        env = abseval.Env()
+        env[t["params"][0].get("name")] = ("int", i)
+        try:
+            try:
+                r = ev.ev(t["hir"], env)
+            except abseval.Return as rt:
+                r = rt.v
+        except Unrecognised as ex:
+            raise Unrecognised(f"to_ansi_color: {ex}")
+        if r[0] == "some" and r[1][0] == "enum":
+            got[i] = r[1][1].split("::")[-1]
+        elif r[0] != "none":
+            got[i] = str(r)
+        rep.count()
     rep.check(got == {i: sgr.ANSI16[i] for i in range(8)} or got == {i: sgr.ANSI16[i] for i in range(16)}, "codes", t["path"],
               "identity-on-hue-index", f"{got}", loc(t))
 
